@@ -649,6 +649,10 @@ def gen_cli_plan(seed, tier):
             src = "def f(a, *b):\n    'doc'\n    return a in {1, None}\n"
     plan = {"kind": "cli", "ver": ver, "hashseed": hs, "oracle_hashseed": hs if same_seed else rng.randint(0, 2 ** 32 - 1), "flags": flags,
             "source_kind": kind, "src": src, "module": rng.choice(CLI_MODULES) if kind == "m" else None, "warm": rng.chance(0.25), "warm_n": rng.randint(2, 3)}
+    if kind == "file" and not invalid and rng.chance(0.35):
+        # durable state between invocations: the SAME path is rewritten with another program of the same
+        # size and (simulated clock) the same modification time, then inspected again
+        plan["rewrite"] = {"same_mtime": rng.chance(0.7), "same_size": rng.chance(0.8), "times": rng.randint(1, 2)}
     if invalid:
         # the sources given on the command line, in order; "c0"/"e0" are the EMPTY -c / -e source (still one source each)
         pool = ["file", "c", "e", "m", "c0", "e0"]
@@ -690,6 +694,7 @@ def cli_argv(plan, workdir):
             return argv, {"source_kind": "e", "source": "", "filename": "<string>", "flags": flags}
         return argv, None
     if kind == "file":
+        os.utime(fpath, (1700000000, 1700000000))
         return out + [fpath], {"source_kind": "file", "source": src, "filename": fpath, "flags": flags}
     if kind == "c":
         # the CLI turns the two characters backslash-n of a -c argument into a newline -- and nothing else
@@ -884,6 +889,37 @@ def exec_cli(plan, tree, log=None):
             if scrub(expd.get("dis", "")) != scrub(expd.get("dis_after", "")):
                 # with --no-normalize the round trip must print the very same disassembly
                 log.count("dis_after_text_differs_from_dis_no_normalize")
+        # L6: durable state between invocations - the same path, rewritten, must be read afresh
+        rw = plan.get("rewrite")
+        if rw and oracle_req.get("source_kind") == "file":
+            cur = plan["src"]
+            for step in range(rw["times"]):
+                nxt = variant_source(cur, rw["same_size"], step)
+                if nxt is None or nxt == cur:
+                    break
+                fpath = oracle_req["filename"]
+                with open(fpath, "w", encoding="utf-8") as f:
+                    f.write(nxt)
+                t = 1700000000 if rw["same_mtime"] else 1700000000 + 100 * (step + 1)
+                os.utime(fpath, (t, t))
+                req2 = dict(oracle_req, source=nxt)
+                exp2 = oracle.call("cli_expect", req2)
+                if not exp2["ok"]:
+                    log.count("rewrite_variant_declined")
+                    break
+                st2, out2, err2 = run_cli_process(plan["ver"], plan["hashseed"], argv, tree, workdir)
+                log.messages += 1
+                log.count("fault_rewrite_same_path")
+                if rw["same_mtime"] and len(nxt.encode("utf-8")) == len(cur.encode("utf-8")):
+                    log.count("fault_rewrite_same_size_same_mtime")
+                log.event("rewrite", step, st2, len(out2))
+                bad = "exit-status" if st2 != 0 else compare_outputs(out2, exp2["sections"])
+                if bad is not None:
+                    log.violate("C16", "L6-stale-result-after-file-rewrite", bad if bad in ("exit-status", "source") else "program-sections",
+                                {"section": bad, "same_mtime": rw["same_mtime"], "step": step, "argv": [a.replace(workdir, "<wd>") for a in argv[:8]]})
+                    return log
+                cur = nxt
+                exp, stdout = exp2, out2  # what the path holds now
         # L5: warm re-invocation == fresh processes
         if plan.get("warm"):
             warm = cl.get("warm", plan["ver"], plan["hashseed"])
@@ -902,6 +938,22 @@ def exec_cli(plan, tree, log=None):
             shutil.rmtree(workdir, ignore_errors=True)
         except Exception:
             pass
+
+
+def variant_source(src, same_size, step):
+    """Another program at the same path: one digit (or one identifier letter) changed, same byte length;
+    or, when the size may differ, one more statement appended."""
+    if not same_size:
+        return src + ("\n" if not src.endswith("\n") else "") + "zz_rewritten_%d = %d\n" % (step, step + 41)
+    m = re.search(r"(?<![\w.])([1-8])(?![\w.xXoObBjJeE])", src)
+    if m:
+        d = str(int(m.group(1)) + 1)
+        return src[:m.start(1)] + d + src[m.end(1):]
+    m = re.search(r"\b(foo|bar|baz|data|item|value|obj)\b", src)
+    if m:
+        w = m.group(1)
+        return src[:m.start(1)] + w[:-1] + ("q" if w[-1] != "q" else "z") + src[m.end(1):]
+    return None
 
 
 def classify_stderr(s):
@@ -1097,7 +1149,8 @@ RULES = {
            "seeded source kind (file, -c with \\n escapes, -e expression, -m stdlib module), seeded subset of --dis --dis-after --source --no-normalize --json, or an invalid "
            "source combination (none, two, three, four sources; the empty -c / -e source, which is ONE source); an API oracle node of the same version (equal or different hash "
            "seed) renders the expected stdout from the API result; checks L1 exit status, L2 printed CodeData, L3 JSON loads back, L4/L4b --dis-after, L5 warm re-invocation "
-           "in one process == fresh processes. NON-TRIVIAL = a fault fired (invalid/empty source combination, warm re-invocation, oracle under a different hash seed); distinct = distinct run digest among those.",
+           "in one process == fresh processes, L6 the same path rewritten with another program of the same size and modification time (the harness sets mtimes: "
+           "simulated clock granularity) and inspected again prints the new program. NON-TRIVIAL = a fault fired (invalid/empty source combination, warm re-invocation, oracle under a different hash seed); distinct = distinct run digest among those.",
 }
 
 
